@@ -34,6 +34,11 @@ def build(tier, seed, exclude):
                 err = AP.c16({shape!r}, {ch}, {k}, warm_rerun=True)
                 return T.fail(err) if err else True
             """, timeout=to)
+    # nested workflows: with a limit of 1 the limit holds (the recorded finding concerns limits >= 2)
+    g.cond("h_nested_k1", params, pre, f"""
+        err = AP.c16("nested", {ch}, 1)
+        return T.fail(err) if err else True
+    """, timeout=to)
     if "C16-nested-workflows-count-separately" not in exclude:
         for k in (2, 3):
             g.cond(f"h_nested_k{k}", params, pre, f"""
